@@ -363,6 +363,7 @@ pub unsafe extern "C" fn fork() -> i32 {
         return r as i32;
     }
     let was_logging = logging();
+    sched_before_fork();
     if REAL_FORK.is_none() {
         resolve_real();
     }
@@ -1463,8 +1464,65 @@ fn run_handle(spec: &Spec, stub: &str) {
     LOGGING.store(false, Ordering::SeqCst);
 }
 
-fn run_threads(_spec: &Spec, _stub: &str) {
-    unimplemented!("thread scenarios are added with C08")
+static SCHED_ON: AtomicBool = AtomicBool::new(false);
+static A_AT_FORK: AtomicBool = AtomicBool::new(false);
+static B_DONE: AtomicBool = AtomicBool::new(false);
+static A_TID: AtomicUsize = AtomicUsize::new(0);
+
+/// called by the fork interposer: thread A stops right before its fork until thread B's launch is complete
+fn sched_before_fork() {
+    if SCHED_ON.load(Ordering::SeqCst) && unsafe { libc::pthread_self() } as usize == A_TID.load(Ordering::SeqCst) {
+        A_AT_FORK.store(true, Ordering::SeqCst);
+        let t = Instant::now();
+        while !B_DONE.load(Ordering::SeqCst) && t.elapsed() < Duration::from_secs(5) {
+            std::thread::yield_now();
+        }
+    }
+}
+
+/// Two threads launch concurrently under a fixed schedule (C08): thread A (stdin and stdout piped) is held
+/// between the creation of its pipes and its fork while thread B performs a complete launch.
+fn run_threads(spec: &Spec, stub: &str) {
+    let sched = spec.get("schedule").unwrap_or("a-in-flight") == "a-in-flight";
+    SCHED_ON.store(sched, Ordering::SeqCst);
+    LOGGING.store(true, Ordering::SeqCst);
+    let stub_a = stub.to_string();
+    let stub_b = stub.to_string();
+    let ta = std::thread::spawn(move || {
+        A_TID.store(unsafe { libc::pthread_self() } as usize, Ordering::SeqCst);
+        let cfg = PopenConfig { stdin: Redirection::Pipe, stdout: Redirection::Pipe, ..Default::default() };
+        let r = Popen::create(&[OsString::from(stub_a), OsString::from("a")], cfg);
+        match r {
+            Ok(mut p) => {
+                println!("thread a ok pid={}", p.pid().unwrap_or(0));
+                drop(p.stdin.take());
+                let mut out = vec![];
+                let t = Instant::now();
+                p.stdout.take().unwrap().read_to_end(&mut out).ok();
+                println!("thread a eof_ms {}", t.elapsed().as_millis());
+                p.wait().ok();
+            }
+            Err(e) => println!("thread a err {}", show_err(&e)),
+        }
+    });
+    let tb = std::thread::spawn(move || {
+        let t = Instant::now();
+        while sched && !A_AT_FORK.load(Ordering::SeqCst) && t.elapsed() < Duration::from_secs(5) {
+            std::thread::yield_now();
+        }
+        let r = Popen::create(&[OsString::from(stub_b), OsString::from("b")], PopenConfig::default());
+        B_DONE.store(true, Ordering::SeqCst);
+        match r {
+            Ok(mut p) => {
+                println!("thread b ok pid={}", p.pid().unwrap_or(0));
+                p.wait().ok();
+            }
+            Err(e) => println!("thread b err {}", show_err(&e)),
+        }
+    });
+    ta.join().unwrap();
+    tb.join().unwrap();
+    LOGGING.store(false, Ordering::SeqCst);
 }
 
 #[allow(dead_code)]
